@@ -45,6 +45,8 @@ def decide(out, obs, total, st, n, nf):
     nontriv = 0
     samples = []
     for o in vlib.read_ndjson(obs):
+        if o.get("outcome") == "notrun":
+            continue
         if o.get("outcome") in ("hang", "abort", "harness_panic"):
             out.fail("NEW", "worker %s on a literal" % o.get("outcome"), o.get("input_case"))
             continue
